@@ -66,6 +66,10 @@ def strategy_(draw, tier):
     for b, _ph in spec["alloc"][:32]:
         pts += [b * bs, (b + 1) * bs]
     spec["requests"] = draw(strat.requests(spec["disk_size"], bs, count=6, points=pts, whole_limit=4 << 20))
+    spec["via_gzip"] = draw(st.integers(0, 7)) == 0
+    spec["banner"] = draw(st.sampled_from(["<<< Oracle VM VirtualBox Disk Image >>>\n", "<<< Oracle VM VirtualBox Disk Image >>>\n",
+                                           "<<< Sun xVM VirtualBox Disk Image >>>\n", "<<< innotek VirtualBox Disk Image >>>\n",
+                                           "<<< QEMU VM Virtual Disk Image >>>\n", "", "<<< CloneVDI >>>"]))
     if draw(st.integers(0, 5)) == 0:  # a parent image below: zero blocks stay zero, unallocated ones fall through
         pbs = bs if draw(st.booleans()) else 1 << draw(st.sampled_from([9, 12, 16, 20]))  # the parent may use another block size
         while spec["disk_size"] // pbs > 1 << 18:  # the block map is read at open: keep it below 1 MiB (cost bound)
@@ -125,4 +129,19 @@ def check(spec) -> Outcome:
     if v.size != spec["disk_size"]:
         out.fail("mismatch|vdi-size", f"size {v.size} != {spec['disk_size']}")
     check_reads(out, v, lay, spec["requests"], "vdi")
+    if spec.get("via_gzip") and not spec.get("parent") and not out.failures:
+        # the same image behind gzip.open(): a handle with a descriptor of its own that belongs to other bytes
+        from hv.core import gzip_handle
+
+        gz, cleanup = gzip_handle(fh)
+        if gz is not None:
+            try:
+                out.cls("via-gzip-handle")
+                v2, err = lib(VDI, gz)
+                if err:
+                    out.fail(err.sig("vdi-gzip-open"), f"VDI(gzip handle) raised {err.describe()}")
+                else:
+                    check_reads(out, v2, lay, spec["requests"][:4], "vdi-gzip")
+            finally:
+                cleanup()
     return out
